@@ -47,11 +47,29 @@ fn encode(m: &Beatmap) -> Result<String, String> {
     m.clone().encode_to_string().map_err(|e| format!("encode error {e}"))
 }
 
-/// K5 shapes in a control-point list
-fn k5_shape(c: &[PathControlPoint]) -> bool {
-    let a_eq = c.windows(2).any(|w| w[0].pos == w[1].pos);
-    let b_tt = c.windows(2).enumerate().any(|(j, w)| j >= 1 && w[0].path_type.is_some() && w[1].path_type.is_some());
-    a_eq || b_tt
+/// K5 shapes in a control-point list. Determined empirically on the pinned tree (harness/examples/k5sig.rs:
+/// 400 k generated documents, no failing list outside the predicate, 73 % of the lists inside it fail) and
+/// stated in terms of the format's idiom: a segment start whose type equals the previous segment's (and is not
+/// a perfect curve) is written as a *duplicated point* unless it is the last point or the two points before it
+/// already coincide. That implicit form is ambiguous when the typed point itself repeats its predecessor, or
+/// when the next point is typed too (one-point segment). Lists with a Catmull segment keep the wider rule
+/// (any repeated position / inner adjacent typed points): the decoder also splits Catmull runs at duplicates.
+pub fn k5_shape(c: &[PathControlPoint]) -> bool {
+    use rosu_map::section::hit_objects::SplineType;
+    if c.iter().any(|p| p.path_type.map_or(false, |t| t.kind == SplineType::Catmull)) {
+        let a_eq = c.windows(2).any(|w| w[0].pos == w[1].pos);
+        let b_tt = c.windows(2).enumerate().any(|(j, w)| j >= 1 && w[0].path_type.is_some() && w[1].path_type.is_some());
+        return a_eq || b_tt;
+    }
+    let implicit = |i: usize| -> bool {
+        let Some(t) = c[i].path_type else { return false };
+        let last = c[..i].iter().rev().find_map(|p| p.path_type);
+        if Some(t) != last || t.kind == SplineType::PerfectCurve || i == c.len() - 1 {
+            return false;
+        }
+        !(i > 1 && c[i - 1].pos.x as i32 == c[i - 2].pos.x as i32 && c[i - 1].pos.y as i32 == c[i - 2].pos.y as i32)
+    };
+    (1..c.len()).any(|i| implicit(i) && (c[i].pos == c[i - 1].pos || (i + 1 < c.len() && c[i + 1].path_type.is_some())))
 }
 
 fn dedup_positions(c: &[PathControlPoint]) -> Vec<(u32, u32)> {
